@@ -53,13 +53,18 @@ func (cw *CodeWriter) WriteRune(r rune) {
 
 // WriteSignSeparator writes a space when the text written so far ends with the
 // sign character that next begins with: printed back to back, "- -x" would read
-// as "--x" and "+ ++x" as "++ +x".
+// as "--x" and "+ ++x" as "++ +x". A "--" directly after "<!" is kept apart as
+// well: "<!--" opens an HTML-like comment in JavaScript scripts.
 func (cw *CodeWriter) WriteSignSeparator(next string) {
 	if next == "" || (next[0] != '+' && next[0] != '-') {
 		return
 	}
 	cw.flushPending()
-	if written := cw.Builder.String(); len(written) > 0 && written[len(written)-1] == next[0] {
+	written := cw.Builder.String()
+	if len(written) == 0 {
+		return
+	}
+	if written[len(written)-1] == next[0] || (next == "--" && strings.HasSuffix(written, "<!")) {
 		cw.WriteRune(' ')
 	}
 }
